@@ -44,11 +44,11 @@ m = {
         "name": "coq-proof+correspondence",
         "path": "/verif/check",
         "serves_properties": claimed,
-        "kind_free_text": "Coq 8.16 theorems (no axioms) about hand-written executable Gallina models; the models are run (extracted to OCaml, cross-checked by vm_compute) against a Rust harness built from /repo's working tree and against the real std on bounded-exhaustive + stress (block sizes, type limits, confusable bytes) + seeded random cases; on a changed source, line coverage of the changed code by those cases is an obligation",
+        "kind_free_text": "Coq 8.16 theorems (no axioms) about hand-written executable Gallina models; the models are run (extracted to OCaml, cross-checked by vm_compute) against a Rust harness built from /repo's working tree and against the real std on bounded-exhaustive + stress (block sizes, type limits, confusable bytes) + seeded random cases; on a changed source, line coverage of the changed code by those cases is an obligation; rustc's const evaluator (generated constants) and Miri (reduced case lists) are run as UB oracles in every tier; generated 'valid programs keep compiling' / 'must be rejected' probes are judged by rustc",
     }],
     "checks": checks,
     "not_applicable": na,
-    "notes": "Genuine defects F1-F6 are repaired by 'fix:' commits in /repo (KNOWN_FINDINGS.txt, DESIGN.md section 5); F7 (C10), F8 (C09), F9 (C17) are known findings. Seeded breaking changes and which check catches them: /verif/seeded and DESIGN.md.",
+    "notes": "Genuine defects F1-F6 and F10 are repaired by 'fix:' commits in /repo (KNOWN_FINDINGS.txt, DESIGN.md sections 5 and 11.12); F7 (C10), F8 (C09), F9 (C17) are known findings. Seeded breaking changes (160, six rounds) and behaviour-preserving rewrites (20), and which check catches / stays quiet on them: /verif/seeded, seeded/RERUN.json and DESIGN.md sections 10 and 11.",
 }
 json.dump(m, open(os.path.join(V, "MANIFEST.json"), "w"), indent=1)
 print("MANIFEST.json:", len(checks), "checks;", len(na), "not claimed")
